@@ -71,8 +71,11 @@ Print Assumptions fai_read_zero_length.
 
 (** WriteTo then ReadFrom gives the index back — the same records, listed by
     ascending Start — for every index with unique names that contain no
-    double quote, TAB, CR, LF ([good_rec]; encoding/csv is modelled as a plain
-    LF / TAB split, which is what it does on such names) and numbers in int64. *)
+    double quote, TAB, CR, LF (encoding/csv is modelled as a plain LF / TAB
+    split, which is what it does on such names), numbers in int64 and a
+    geometry that passes the validation of ReadFrom ([geometry_ok]: nothing
+    negative, BasesPerLine 0 only for Length 0, BytesPerLine >= BasesPerLine,
+    offset of the last base below 2^63); all of that is [good_rec]. *)
 Theorem fai_tsv_roundtrip :
   forall idx, NoDup (map r_name idx) -> Forall good_rec idx ->
     readfrom (writeto idx) = Ok (sort_by_start idx) /\ Permutation (sort_by_start idx) idx.
@@ -80,12 +83,21 @@ Proof. exact tsv_roundtrip. Qed.
 Print Assumptions fai_tsv_roundtrip.
 
 (** The index NewIndex builds for a well-formed file survives WriteTo /
-    ReadFrom unchanged (no double quote in a name; file smaller than 2^63 bytes). *)
+    ReadFrom unchanged: its entries are sorted, uniquely named and pass the
+    geometry validation of ReadFrom (no double quote in a name; twice the file
+    size stays below 2^63, which keeps the validation's overflow test away). *)
 Theorem fai_tsv_roundtrip_index :
-  forall f, wf f = true -> no_quote f = true -> zlen (render f) < 2 ^ 63 ->
+  forall f, wf f = true -> no_quote f = true -> 2 * zlen (render f) + 2 < 2 ^ 63 ->
     readfrom (writeto (index_of f)) = Ok (index_of f).
 Proof. exact tsv_roundtrip_index. Qed.
 Print Assumptions fai_tsv_roundtrip_index.
+
+(** Every record of an index that ReadFrom accepts has passed the geometry
+    validation, whatever the text was. *)
+Theorem fai_readfrom_validates :
+  forall tsv idx, readfrom tsv = Ok idx -> Forall (fun r => geometry_ok r = true) idx.
+Proof. exact readfrom_validates. Qed.
+Print Assumptions fai_readfrom_validates.
 
 (** The offset has to advance over blank lines: the variant of NewIndex that
     skips them without counting (the code before the repair) gets a
